@@ -341,6 +341,7 @@ Proof.
               | H : has_vty TyStr ?v = true |- _ => destruct v; try discriminate H; clear H
               | H : has_vty TyTs ?v = true |- _ => destruct v; try discriminate H; clear H
               end; cbn [run_builtin]; crush.
+  all: unfold ferr; auto with nocrash.
 Qed.
 
 Lemma run_host_nocrash h xs : nocrash (run_host h xs).
